@@ -23,7 +23,7 @@ func init() { Register(c14{}) }
 func (c14) ID() string    { return "C14" }
 func (c14) Level() string { return "exploration" }
 func (c14) Rule() string {
-	return "byte strings up to 64 KiB: uniformly random (log-uniform lengths), every prefix of valid messages of every zoo shape, and structure-aware mutations driven by the reference decoder's annotation of a valid message (tag swaps, class/type/ref index edits to {-1, size, size+1, 2^31-1}, length/count edits to {0, +-1, 255, 256, 65535, 2^31-1, -1}, type-name edits, delete/duplicate/transpose of whole sub-values, byte flips/insertions/removals), against type maps {complete, empty, one class missing, adversarial}; entry points ToObject, Decoder.Decode, Decoder.ReadFrom, repeated Decoder.ReadObject to end of input, Serializer.ToObject / ReadFrom / Read. Each case runs in a child process under RLIMIT_AS with a journal. Oracle: the call returns (no panic, no process death), bytes allocated <= 1 MiB + 4096*len, reader calls <= 4096 + 64*len (metered reader aborts at the budget), CPU <= 20 s. Non-trivial = input is not a valid message; distinct by input hash."
+	return "byte strings up to 64 KiB: uniformly random (log-uniform lengths), every prefix of valid messages of every zoo shape, and structure-aware mutations driven by the reference decoder's annotation of a valid message (tag swaps, class/type/ref index edits to {-1, size, size+1, 2^31-1}, length/count edits to {0, +-1, 255, 256, 65535, 2^31-1, -1}, type-name edits, delete/duplicate/transpose of whole sub-values, byte flips/insertions/removals), against type maps {complete, empty, one class missing, adversarial}; entry points ToObject, Decoder.Decode, Decoder.ReadFrom, repeated Decoder.ReadObject to end of input, Serializer.ToObject / ReadFrom / Read. Each case runs in a child process under RLIMIT_AS with a journal. Oracle: the call returns (no panic, no process death), bytes allocated <= 1 MiB + 8192*len, reader calls <= 4096 + 64*len (metered reader aborts at the budget), CPU <= 20 s. Non-trivial = input is not a valid message; distinct by input hash."
 }
 
 // every call is journalled and bounded by 20 CPU-seconds: a worker that has used 30 CPU-seconds
@@ -169,6 +169,33 @@ func craftedInputs() [][]byte {
 		enc(hspec.Object("TwoSlices", []string{"a", "b"}, hspec.List(names[0], hspec.Int(1), hspec.Int(2)), hspec.List(names[1], hspec.String("x"))))
 		enc(hspec.Object("SlSl", []string{"v"}, hspec.List("", hspec.List(names[0], hspec.Int(1)), hspec.List(names[1], hspec.Int(2)))))
 	}
+	// back-references to an UNTYPED list from typed slice fields (each one has to be converted):
+	// n references to one list of m elements must not cost n*m
+	for _, n := range []int{2000, 20800} {
+		b := hspecHx("C x04 Tree x92 x04 name x04 kids x57")
+		for i := 0; i < n; i++ {
+			b = append(b, 0x60, 'N', 0x51, 0x90) // Tree{name: null, kids: ref to the enclosing, still growing list}
+		}
+		out = append(out, append(b, 'Z'))
+	}
+	{
+		b := hspecHx("C x07 SlInt64 x91 x01 v x57 x58 xd4 x4e x20") // list #0 holds list #1: 20000 ints ...
+		for i := 0; i < 20000; i++ {
+			b = append(b, 0x90+byte(i%40))
+		}
+		for i := 0; i < 8000; i++ {
+			b = append(b, 0x60, 0x51, 0x91) // ... and 8000 SlInt64{v: ref #1}
+		}
+		out = append(out, append(b, 'Z'))
+	}
+	// nested lists that each DECLARE 1024 elements (the largest length that is reserved up front)
+	{
+		var b []byte
+		for i := 0; i < 21845; i++ {
+			b = append(b, 0x58, 0xcc, 0x00)
+		}
+		out = append(out, b)
+	}
 	// the same doubling inside a typed destination: SlIface.V / MpStrAny.M hold the chain
 	for _, depth := range []int{30, 60} {
 		b := hspecHx("C x07 SlIface x91 x01 v x60 x57 x79 x91")
@@ -180,6 +207,10 @@ func craftedInputs() [][]byte {
 		}
 		out = append(out, append(b, 'Z'))
 	}
+	// an untyped map that contains itself, under / inside a SELF-REFERENTIAL map type of the type map
+	out = append(out, hspecHx("M x04 RMap x01 a H x01 b Q x91 Z Z"))
+	out = append(out, hspecHx("C x05 HoldR x93 x01 t x01 m x01 n x60 N H x01 a H x01 b Q x92 Z Z x90"))
+	out = append(out, hspecHx("C x05 HoldR x93 x01 t x01 m x01 n x60 x57 x57 Q x91 Z Z N x90"))
 	return out
 }
 
@@ -223,7 +254,9 @@ func c14run(env *Env, res *Result, c Case, sub int, input []byte, tmName string,
 	if len(cc.S) > 4000 {
 		cc.S = "" // regenerated from the seed on replay
 	}
-	allocBudget := uint64(1<<20 + 4096*len(input))
+	// the decoder reserves at most 1024 slots (16 bytes each) for a declared list length, and a list
+	// header takes 3 octets: 5461 bytes per input octet is the steepest legitimate (linear) slope
+	allocBudget := uint64(1<<20 + 8192*len(input))
 	callBudget := 4096 + 64*len(input)
 	base := append([]string{"typemap=" + tmName}, feats...)
 	tmLen := len(tm)
